@@ -121,10 +121,18 @@ Definition read_server_parameters (fixed : bool) (c : client) (m : ee_msg) : res
   match ee_quic m with Some _ => Err a_unsupported_extension | None =>                                 (* :729-732 *)
   if ee_early m then Err a_unsupported_extension else Ok st end.                                       (* :735-738 *)
 
+(* handshake_client_tls13.go:712: the uTLS hook is guarded by `hs.uconn != nil` only - in particular NOT by hs.usingPSK: a resumed
+   connection negotiates application settings afresh, exactly like a full handshake *)
+Definition read_server_parameters_conn (using_psk : bool) (fixed : bool) (c : client) (m : ee_msg) : res alps_state :=
+  read_server_parameters fixed c m.
+
 (* readHandshake + the type assertion (:691-700): a message that does not parse is unexpected_message *)
 Definition client_read_ee (fixed : bool) (c : client) (data : bytes) : res alps_state :=
   do r <- ee_unmarshal data;
   match r with None => Err a_unexpected_message | Some m => read_server_parameters fixed c m end.
+Definition client_read_ee_conn (using_psk fixed : bool) (c : client) (data : bytes) : res alps_state :=
+  do r <- ee_unmarshal data;
+  match r with None => Err a_unexpected_message | Some m => read_server_parameters_conn using_psk fixed c m end.
 
 (* ---------- utlsClientEncryptedExtensionsMsg.marshal, u_handshake_messages.go:80-107 ---------- *)
 Definition E_BUILD : N := 1.     (* cryptobyte.Builder: "pending child length exceeds N-byte length prefix" *)
